@@ -275,6 +275,9 @@ impl Report {
 		}
 	}
 	pub fn violation(&mut self, signature: &str, what: &str, case: Value) {
+		if std::env::var("GWV_DEBUG").is_ok() {
+			eprintln!("VIOL {} | {} | {}", signature, trunc(what, 600), trunc(&case.to_string(), 1500));
+		}
 		// keep at most 40 literal violations, but count all by signature
 		self.count(&format!("violation:{}", signature));
 		if self.violations.len() < 40
@@ -335,6 +338,7 @@ impl Report {
 thread_local! {
 	static LAST_PANIC: RefCell<Option<(String, String)>> = RefCell::new(None);
 	static QUIET: RefCell<bool> = RefCell::new(true);
+	static IN_CATCH: RefCell<u32> = RefCell::new(0);
 }
 
 /// Install a hook that records `file:line` and message of the panic per thread.
@@ -351,7 +355,7 @@ pub fn install_panic_hook() {
 		} else {
 			"<non-string payload>".to_string()
 		};
-		let quiet = QUIET.with(|q| *q.borrow());
+		let quiet = QUIET.with(|q| *q.borrow()) && IN_CATCH.with(|c| *c.borrow()) > 0;
 		if !quiet {
 			eprintln!("panic at {}: {}", loc, msg);
 		}
@@ -386,7 +390,9 @@ pub fn norm_loc(loc: &str) -> String {
 /// Run `f`, catching unwinding. Err((location, message)) on panic.
 pub fn catch<T, F: FnOnce() -> T>(f: F) -> Result<T, (String, String)> {
 	LAST_PANIC.with(|p| *p.borrow_mut() = None);
+	IN_CATCH.with(|c| *c.borrow_mut() += 1);
 	let r = panic::catch_unwind(panic::AssertUnwindSafe(f));
+	IN_CATCH.with(|c| *c.borrow_mut() -= 1);
 	match r {
 		Ok(v) => Ok(v),
 		Err(_) => {
